@@ -15,6 +15,8 @@ PROPS = {
         models=[
             dict(name="ccall", pkg="./ccallx", test="TestCCall", coq_mod="CCall.Spec", run_check="run_check_ccall",
                  corpus="ccall", quick_n=2500, thorough_n=150000, nontrivial=nt_ccall,
+                 # the same correspondence in the free-running regime, in every check (harness/ccallx/free_test.go)
+                 free_search=dict(test="TestCCallFree", props={"C17": [5]}), free_always=True,
                  rule="one CallConcurrently call per history: 0-5 entries incl. nil entries (also only nil entries), caller context cancelled "
                       "before / during the call or never, every function returns nil / context.Canceled / one of three errors in an "
                       "implementation-driven random order against the caller's gates; the caller's context is plain / ends like a deadline / is cancelled with a cause "
